@@ -733,6 +733,8 @@ def lattice_bases():
 # ---- C: files ------------------------------------------------------------------------------
 
 def expected_cells(col, rows):
+    if col["kind"] == "flat":
+        return [{"scalar": repr(v)} for v in rows]
     if col["kind"] == "list":
         return rows
     return [None if r is None else {"dict": [[k, v] for k, v in r]} for r in rows]
@@ -747,7 +749,7 @@ def file_case_classes(case):
         for c in case["cols"]:
             for leaf in NF.leaf_columns(c):
                 lay = rg["layout"][c["name"] + "/" + leaf["which"]]
-                if lay["version"] != 1:
+                if lay["version"] != 1 or leaf["which"] == "flat":
                     continue
                 lrows = NF.leaf_rows(c, leaf, rg["rows"][c["name"]])
                 rep, de, vals = NF.shred(lrows, leaf["row_opt"], leaf["elem_opt"])
@@ -764,6 +766,8 @@ def model_file(pq, case, written):
     vts = {}
     for gi, (rg, wrg) in enumerate(zip(case["rgs"], written)):
         for leaf in wrg:
+            if leaf["which"] == "flat":
+                continue            # no assembly: only the oracle looks at flat columns
             vt = vts.setdefault((leaf["col"], leaf["which"]), VTable())
             n = len(rg["rows"][leaf["col"]])
             mp = [m_page(r, d, v, vt) for (r, d, v) in leaf["pages"]]
@@ -791,6 +795,9 @@ def predicted_cells(case, mres, vts):
     out = {}
     for c in case["cols"]:
         cells = []
+        if c["kind"] == "flat":
+            out[c["name"]] = expected_cells(c, [r for rg in case["rgs"] for r in rg["rows"][c["name"]]])
+            continue
         for gi, rg in enumerate(case["rgs"]):
             if c["kind"] == "list":
                 r = mres[(gi, c["name"], "elem")]
@@ -816,7 +823,7 @@ def impl_cells_idx(case, cells, vts):
     out = {}
     for c in case["cols"]:
         col = cells.get(c["name"])
-        if not isinstance(col, list):
+        if not isinstance(col, list) or c["kind"] == "flat":
             out[c["name"]] = col
             continue
         if c["kind"] == "list":
@@ -850,7 +857,8 @@ def check_file_case(ctx, pq, w, case, path, conf_budget):
     ctx.count("file.page_version", ",".join(map(str, versions)))
     ctx.count("file.values", ",".join(encs))
     ctx.count("file.codecs", ",".join(sorted({str(lay.get("codec")) for rg in case["rgs"] for lay in rg["layout"].values()})))
-    ctx.count("file.kinds", ",".join(sorted(c["kind"] + ("/opt" if c["row_opt"] else "/req") + ("/opt" if c["elem_opt"] else "/req") for c in case["cols"])))
+    ctx.count("file.kinds", ",".join(sorted(c["kind"] + ("" if c["kind"] == "flat" else ("/opt" if c["row_opt"] else "/req") + ("/opt" if c["elem_opt"] else "/req"))
+                                            for c in case["cols"])))
     ctx.count("file.row_groups", len(case["rgs"]))
     ctx.count("file.max_pages_per_chunk", max(len(lay["cuts"]) + 1 for rg in case["rgs"] for lay in rg["layout"].values()))
     written = write_case(case, path)
@@ -973,16 +981,35 @@ def stage_files(ctx, pq, w):
             if kind == "map":
                 col["key_ptype"] = rng.choice(["utf8", "int64", "int32"])
             cols.append(col)
+        if rng.random() < 0.35:
+            # an ordinary required column before / between / after the nested ones
+            cols.insert(rng.randint(0, len(cols)), dict(name="id", kind="flat", ptype=rng.choice(["int64", "utf8", "double"])))
         rgs = []
         # mostly splits the theorem covers; one file in five may cut anywhere (known-bad regions included)
         anywhere = rng.random() < 0.2
+        long_mode = rng.random() < 0.04      # hundreds of short rows: level runs >= 64 (two-byte run headers), > 63 bit-packed groups
         for _g in range(rng.choice([1, 1, 2, 3])):
             big = rng.random() < 0.08          # now and then long columns / long lists (level runs >= 8, several bit-packed groups)
             nrows = rng.randint(8, 40) if big else rng.randint(1, 7)
             maxlen = 12 if big else 5
+            if long_mode:
+                nrows, maxlen = rng.randint(300, 700), 2
             rg = {"rows": {}, "layout": {}}
             for col in cols:
-                if col["kind"] == "list":
+                if col["kind"] == "flat":
+                    pl = pool(col["ptype"])
+                    rows = [pl[(k * 7 + _g) % len(pl)] if col["ptype"] != "int64" else k * 1000 + _g for k in range(nrows)]
+                    rg["rows"][col["name"]] = rows
+                    cand = list(range(1, nrows))
+                    rg["layout"][col["name"] + "/flat"] = dict(
+                        cuts=sorted(rng.sample(cand, min(len(cand), rng.choice([0, 0, 1, 2])))), version=rng.choice([1, 2]),
+                        dictionary=rng.random() < 0.3, level_style="mixed", codec=rng.choice([None, "SNAPPY"]))
+                    continue
+                if long_mode:
+                    rows = gen_rows(rng, col["row_opt"], col["elem_opt"], nrows, maxlen, col["ptype"], 0.35, 0.3, 0.3) if col["kind"] == "list" \
+                        else gen_map_rows(rng, col["row_opt"], col["elem_opt"], nrows, maxlen, col["key_ptype"], col["ptype"])
+                    rg["rows"][col["name"]] = rows
+                elif col["kind"] == "list":
                     rows = gen_rows(rng, col["row_opt"], col["elem_opt"], nrows, maxlen, col["ptype"])
                 else:
                     rows = gen_map_rows(rng, col["row_opt"], col["elem_opt"], nrows, maxlen, col["key_ptype"], col["ptype"])
